@@ -115,6 +115,22 @@ pub fn check(case: &Case, st: &mut Stats) -> Result<(), Violation> {
         for j in 0..3 {
             let d = (f64::from(got[j]) - want[j]).abs();
             if !(d <= TOL) {
+                // shrink the failing triple towards the neutral code while it keeps failing
+                let bad = |q: [u16; 3]| -> bool {
+                    let r = if case.u8_storage { decode::<u8>(c, &[q], false) } else { decode::<u16>(c, &[q], false) };
+                    match r {
+                        Ok(r) => {
+                            let w = reference(c, q);
+                            (0..3).any(|k| !((f64::from(r.data()[0][k]) - w[k]).abs() <= TOL))
+                        }
+                        Err(_) => false,
+                    }
+                };
+                let small = minimize_codes(*code, [16u16 << (c.bit_depth - 8), half, half], bad);
+                if small != *code && bad(small) {
+                    let w2 = reference(c, small);
+                    return Err(fail(format!("pixel {:?} (shrunk from {:?}): H.273 gives {:?} but the decoder differs by more than {:e}; cfg {}", small, code, w2, TOL, cfg_json(c)), &[small]));
+                }
                 return Err(fail(
                     format!(
                         "pixel {:?} component {}: got {:e}, H.273 gives {:e} (|diff| {:e} > {:e}) cfg {}",
@@ -154,7 +170,7 @@ pub fn check(case: &Case, st: &mut Stats) -> Result<(), Violation> {
 }
 
 pub fn run(ctx: &Ctx, st: &mut Stats) -> Vec<Violation> {
-    let mut v = run_proptest(ctx, st, "random", ctx.pick(3000, 40000), strategy, check);
+    let mut v = run_proptest(ctx, st, "random", ctx.cases(30_000, 300_000), strategy, check);
     if !v.is_empty() {
         return v;
     }
@@ -173,7 +189,7 @@ pub fn run(ctx: &Ctx, st: &mut Stats) -> Vec<Violation> {
 
 /// all 2^24 triples at 8 bit for 7 matrices x 2 ranges x both storages (quick: every 17th Y)
 fn exhaustive_8bit(ctx: &Ctx, st: &mut Stats) -> Vec<Violation> {
-    let ystep: u64 = ctx.pick(17, 1);
+    let ystep: u64 = if ctx.light { 17 } else { ctx.pick(5, 1) };
     let nconf = (STD_MC.len() * 2 * 2) as u64;
     let ys: Vec<u64> = (0..256).step_by(ystep as usize).collect();
     let total = nconf * ys.len() as u64;
